@@ -24,6 +24,7 @@ func main() {
 	cases := flag.String("cases", "", "run exactly these cases (replay)")
 	out := flag.String("out", "", "result JSON path")
 	worker := flag.Bool("worker", false, "internal: run as a case worker")
+	wbin := flag.String("workerbin", "", "binary for worker subprocesses (race-enabled build)")
 	flag.Parse()
 
 	streams := map[string]Stream{
@@ -36,6 +37,9 @@ func main() {
 	if !ok {
 		fmt.Fprintln(os.Stderr, "unknown stream", *stream)
 		os.Exit(2)
+	}
+	if *wbin != "" {
+		workerBin = *wbin
 	}
 	if *worker {
 		workerMain(s)
